@@ -79,6 +79,9 @@ def run(sid, pids):
                         # the generators' random stream): the change stays detected when the generators move on
                         cf = os.path.join(V, "corpus", pid, "seeded-%s.prog" % sid)
                         prog = rp.get("shrunk_program") or rp.get("program")
+                        if pid == "C19":
+                            # the executor of this suite appends its own comparison step: keep the whole program without it
+                            prog = "".join(l + "\n" for l in (rp.get("program") or "").splitlines() if not l.startswith("O c19eq"))
                         if prog and rp.get("suite") == pid and rp.get("falsified_clauses") and not os.path.exists(cf):
                             os.makedirs(os.path.dirname(cf), exist_ok=True)
                             open(cf, "w").write(prog if prog.endswith("\n") else prog + "\n")
